@@ -380,13 +380,23 @@ impl<T1, T2, T3>''')]),
                     attr_name
                 );
                 let _ = err_msg;''')]),
- ("c20_async_store_before_await", ["C20"], [(MA, '''        // Execute original async function (cache miss or expired)
+ ("c20_async_second_lookup_after_await", ["C20", "C15"], [(MA, '''        // Execute original async function (cache miss or expired)
         let __result = (async #block).await;
 ''', '''        // Execute original async function (cache miss or expired)
-        let __fut = async #block;
-        let __order_guard = #order_ident.lock();
-        drop(__order_guard);
-        let __result = __fut.await;
+        let __result = (async #block).await;
+        if let Some(__again) = __cache.get(&__key) {
+            return __again;
+        }
+''')]),
+ ("c20_async_shard_ref_across_await", ["C20"], [(MA, '''        // Execute original async function (cache miss or expired)
+        let __result = (async #block).await;
+''', '''        // Execute original async function (cache miss or expired)
+        let __result = {
+            let __peek = #cache_ident.iter().next();
+            let __r = (async #block).await;
+            drop(__peek);
+            __r
+        };
 ''')]),
  ("c20_async_guard_across_await", ["C20", "C17"], [(MA, '''        // Execute original async function (cache miss or expired)
         let __result = (async #block).await;
